@@ -29,6 +29,40 @@ pub fn root() -> String {
 pub fn replay_dir() -> String {
     format!("{}/replays", root())
 }
+thread_local! {
+    /// keys of known findings (from known_findings.txt); loaded by workers only, so that
+    /// `replay` still reproduces a known finding from its file
+    static KNOWN: std::cell::RefCell<Vec<(String, String)>> = std::cell::RefCell::new(Vec::new());
+}
+
+pub fn load_known_findings() {
+    let mut v = Vec::new();
+    if let Ok(text) = std::fs::read_to_string(format!("{}/known_findings.txt", root())) {
+        for line in text.lines() {
+            let line = line.trim();
+            if !line.starts_with("known:") {
+                continue;
+            }
+            let prop = line
+                .split_whitespace()
+                .find_map(|w| w.strip_prefix("property="))
+                .unwrap_or("")
+                .to_string();
+            if let Some(ix) = line.find(" key=") {
+                let rest = &line[ix + 5..];
+                let key = rest.split(" ## ").next().unwrap_or(rest).trim().to_string();
+                v.push((prop, key));
+            }
+        }
+    }
+    KNOWN.with(|k| *k.borrow_mut() = v);
+}
+
+/// a violation with this key is a recorded finding: counted, not reported, and the run goes on
+pub fn is_known(prop: &str, key: &str) -> bool {
+    KNOWN.with(|k| k.borrow().iter().any(|(p, kk)| p == prop && kk == key))
+}
+
 /// C11: every n-th run also spawns real child processes (0 = never)
 pub static REAL_EVERY: std::sync::atomic::AtomicU64 = std::sync::atomic::AtomicU64::new(0);
 
@@ -169,6 +203,7 @@ pub fn required_probes(prop: &str) -> Vec<&'static str> {
             "rule.T4.evaluated",
             "rule.T6.evaluated",
             "rule.T7.evaluated",
+            "rule.T8.evaluated",
         ],
         "C11" => vec![
             "op.launch",
@@ -223,6 +258,11 @@ pub fn required_probes(prop: &str) -> Vec<&'static str> {
             "rule.R5.evaluated",
             "rule.R7.evaluated",
             "rule.R8.evaluated",
+            "rule.R3adj.evaluated",
+            "probe.R3adj_first_member_from_variable",
+            "rule.R10.evaluated",
+            "probe.R10_value_from_variables_on_empty_line",
+            "rule.R11.evaluated",
             "probe.R8_name_shared_with_outer_level",
             "rule.T7.evaluated",
             "probe.read_found_variable_set",
@@ -291,6 +331,7 @@ fn init_sim() {
 
 fn worker(args: &[String]) -> i32 {
     init_sim();
+    load_known_findings();
     exec::start_watchdog(45);
     let prop = arg(args, "--prop").expect("--prop");
     let seed: u64 = arg(args, "--seed").expect("--seed").parse().expect("seed");
